@@ -597,7 +597,12 @@ class C05(Check):
             "EP order, three numbering schemes; 5% mutual-argument scopes (F08), 3% doubly bound variables (outside "
             "the claim); (b) 12% semgen.gen_mrs_tree; (c) 13% one or two mutations of (a)/(b); (d) 15% wild MRSs "
             "(semgen.gen_mrs_wild: shared IVs, missing ARG0, dangling/cyclic/duplicate hcons, self-scoping); (e) a "
-            "slice of the enumeration of all MRSs with <= 2 EPs (semgen.enum_small_mrs). The oracle's clauses apply "
+            "slice of the enumeration of all MRSs with <= 2 EPs (semgen.enum_small_mrs). About half of the in-claim cases additionally carry one IN-PLACE EDIT of the live "
+            "object (swap two argument values of an EP / retarget an argument to another EP's ARG0 / change a "
+            "predicate, CARG or variable property / replace m.hcons by a list with one lo retargeted / delete an EP "
+            "from m.rels), chosen so that the edited content is a different MRS still in the claim with the same EP "
+            "ids: ONE object is converted under all configurations, converted again (purity), edited in place and "
+            "converted under all configurations again. The oracle's clauses apply "
             "to the MRSs in the claim (is_well_formed and no doubly bound variable); the rest is compared with the "
             "model only (errors and warnings included). Non-trivial = at least one predication; distinct by JSON text.")
     assumptions = [
@@ -612,6 +617,9 @@ class C05(Check):
         "make_ids_unique iterates a Python set when several non-quantifier EPs share an ARG0 (ill-formed input): the "
         "driver answers 'unmodelled' when that order is observable",
         "representative_priority is left at its default",
+        "in-place edits never touch ARG0/RSTR (EP ids are fixed by the constructor) and never append an EP: the id index "
+        "and the variable map of a structure are built by its constructor only, so the real code raises KeyError even "
+        "in is_well_formed on an object with an appended EP (observation, same nature as F09)",
         "a user-supplied predicate_modifiers function is represented in the model by the mapping it returns",
         "native EDS reads property names upper-cased / values lower-cased (C03's business): the native round trip is "
         "compared modulo that folding",
@@ -947,7 +955,10 @@ class C05(Check):
             # F08: by the definition (not by what the code returned) every member of some scope with at
             # least two members takes another member, or a scopal descendant of another member, as a
             # non-scopal argument -> no representative -> reps[lbl][0] raises
-            m = semgen.mrs_from_json(case["m"])
+            mj = case["m"]
+            if failure.get("phase") and case.get("edit") is not None:
+                mj = apply_edit_json(mj, case["edit"])
+            m = semgen.mrs_from_json(mj)
             if len({ep.id for ep in m.rels}) != len(m.rels):
                 return None
             for _, row in scope_blocking(m).items():
@@ -965,6 +976,7 @@ class C05(Check):
         def inc(k, by=1):
             c[k] = c.get(k, 0) + by
         inc("src:" + case.get("src", "corpus"))
+        inc("edit:" + (case["edit"]["op"] if case.get("edit") else "none"))
         mj = case["m"]
         m = semgen.mrs_from_json(mj)
         claim = in_claim(m)
@@ -1029,18 +1041,25 @@ class C05(Check):
                     c = copy.deepcopy(cur)
                     del c["configs"][i]
                     cands.append(c)
-            if not any(isinstance(cfg["pm"], dict) for cfg in cur["configs"]):
+            if cur.get("edit") is not None:
+                c = copy.deepcopy(cur)
+                del c["edit"]
+                cands.append(c)
+            locked = cur.get("edit") is not None      # an edit addresses EPs / roles / hcons by position
+            if not locked and not any(isinstance(cfg["pm"], dict) for cfg in cur["configs"]):
                 for i in range(len(m["rels"])):
                     c = copy.deepcopy(cur)
                     del c["m"]["rels"][i]
                     cands.append(c)
             for i in range(len(m["hcons"])):
+                if locked:
+                    break
                 c = copy.deepcopy(cur)
                 del c["m"]["hcons"][i]
                 cands.append(c)
             for i, ep in enumerate(m["rels"]):
                 for k in range(len(ep["args"])):
-                    if ep["args"][k][0] != "ARG0":
+                    if ep["args"][k][0] != "ARG0" and not locked:
                         c = copy.deepcopy(cur)
                         del c["m"]["rels"][i]["args"][k]
                         cands.append(c)
